@@ -13,6 +13,7 @@ From RU Require Import Base.Prelude Base.Utf8 Base.Utf8Facts Model.AsciiSet Gen.
   Proofs.ListN Proofs.C14_Set Proofs.C14_Enc Proofs.C14_Views Proofs.C02_Enc Proofs.C02_Parts
   Proofs.C02_Opaque Proofs.C02_Path Proofs.C02_PathL1 Proofs.C02_Reach Proofs.C02_AuthParts
   Proofs.C02_Auth Proofs.C02_AuthWf Proofs.C02_PathSp Proofs.C02_AuthSp Proofs.C02_SetQF Proofs.C02_Canon Proofs.C02_File.
+From RU Require Proofs.C04_PathFile.
 Open Scope N_scope.
 Open Scope list_scope.
 
@@ -210,3 +211,182 @@ Proof.
 Qed.
 
 End FinishF.
+
+(* ================= persistence of a normalised drive letter ================= *)
+Lemma nfirstn_app_ge a b n : nlen a <= n -> nfirstn n (a ++ b) = a ++ nfirstn (n - nlen a) b.
+Proof.
+  intros H. unfold nfirstn, nlen in *.
+  replace (N.to_nat n) with (length a + N.to_nat (n - N.of_nat (length a)))%nat by lia.
+  apply firstn_app_2.
+Qed.
+
+Lemma rfind_aux_ge b l : forall i j k, j < i -> rfind_aux b l i (Some j) = Some k -> j <= k.
+Proof.
+  induction l as [|x r IH]; intros i j k Hj H; cbn [rfind_aux] in H.
+  - inversion H. lia.
+  - destruct (x =? b).
+    + apply (IH (i + 1) i k) in H; lia.
+    + apply (IH (i + 1) j k) in H; lia.
+Qed.
+
+Lemma ddot_58 s : is_double_dot (58 :: s) = false.
+Proof. apply (C04_PathFile.not_dot_head 58 s); discriminate. Qed.
+Lemma sdot_58 s : is_single_dot (58 :: s) = false.
+Proof. apply (C04_PathFile.not_dot_head 58 s); discriminate. Qed.
+
+Lemma slice_head l ss e c r seg : nskipn ss l = c :: r -> ss < e -> slice_o l ss e = Some seg -> exists seg', seg = c :: seg'.
+Proof.
+  intros Hs He H. unfold slice_o in H. destruct ((ss <=? e) && (e <=? nlen l)); [|discriminate H].
+  inversion H. rewrite Hs. unfold nfirstn. destruct (N.to_nat (e - ss)) as [|k] eqn:Ek; [lia|]. cbn [firstn]. eexists. reflexivity.
+Qed.
+
+Section Drive.
+Variable pre : list N.
+Variable dbg : bool.
+Variable a : N.
+Hypothesis Ha : is_alpha a = true.
+Notation ps := (nlen pre).
+Notation loop := (parse_path_loop dbg CUrlParser STFile ps).
+
+Definition P0 : list N := pre ++ [47; a; 58; 47].
+Definition D (ser : list N) : Prop := exists X, ser = P0 ++ X.
+
+Lemma P0_len : nlen P0 = ps + 4.
+Proof. unfold P0. rewrite nlen_app. reflexivity. Qed.
+Lemma D_len ser : D ser -> ps + 4 <= nlen ser.
+Proof. intros [X ->]. rewrite nlen_app, P0_len. lia. Qed.
+Lemma D_app ser y : D ser -> D (ser ++ y).
+Proof. intros [X ->]. exists (X ++ y). rewrite app_assoc. reflexivity. Qed.
+Lemma D_trunc ser n : D ser -> ps + 4 <= n -> D (nfirstn n ser).
+Proof. intros [X ->] H. rewrite nfirstn_app_ge by (rewrite P0_len; lia). eexists. reflexivity. Qed.
+Lemma D_skip ser : D ser -> exists X, nskipn ps ser = 47 :: a :: 58 :: 47 :: X.
+Proof. intros [X ->]. unfold P0. rewrite <- app_assoc. rewrite nskipn_app_len. exists X. reflexivity. Qed.
+Lemma a_not_slash : (a =? 47) = false.
+Proof. unfold is_alpha, is_upper, is_lower in Ha. lia. Qed.
+
+Lemma lscbr_P0 : last_slash_can_be_removed P0 ps = false.
+Proof.
+  unfold last_slash_can_be_removed. rewrite P0_len. replace (ps + 4 - 1) with (nlen (pre ++ [47; a; 58])) by (rewrite nlen_app; unfold nlen; cbn [length]; lia).
+  unfold P0. change [47; a; 58; 47] with ([47; a; 58] ++ [47]). rewrite app_assoc. rewrite nfirstn_app_len.
+  rewrite (rfind_app_last 47 pre [a; 58]) by (unfold no_byte; cbn [forallb]; rewrite a_not_slash; reflexivity).
+  rewrite N.leb_refl. cbn [andb]. rewrite <- app_assoc. rewrite nskipn_app_len.
+  unfold path_starts_with_wdl, starts_with_wdl. cbn [app]. rewrite Ha. reflexivity.
+Qed.
+
+Lemma pop_drive s s3 : D s -> pop_path STFile ps s = POk s3 -> D s3.
+Proof.
+  intros Hd H. pose proof (D_len s Hd) as Hl. destruct (D_skip s Hd) as [X EX].
+  unfold pop_path in H. replace (ps <? nlen s) with true in H by lia. rewrite EX in H.
+  unfold rfind in H. cbn [rfind_aux] in H. rewrite a_not_slash in H.
+  replace (47 =? 47) with true in H by reflexivity. replace (58 =? 47) with false in H by reflexivity.
+  cbn [N.add] in H.
+  destruct (rfind_aux 47 X (0 + 1 + 1 + 1 + 1) (Some (0 + 1 + 1 + 1))) as [sp|] eqn:Er; [|discriminate H].
+  apply rfind_aux_ge in Er; [|lia].
+  destruct (st_is_file STFile && is_normalized_wdl (nskipn (ps + sp + 1) s)); inversion H; subst; [exact Hd|].
+  apply D_trunc; [exact Hd | lia].
+Qed.
+
+Lemma shorten_drive s s3 : D s -> shorten_path STFile ps s = POk s3 -> D s3.
+Proof.
+  intros Hd H. pose proof (D_len s Hd) as Hl. destruct (D_skip s Hd) as [X EX].
+  unfold shorten_path in H. replace (nlen s =? ps) with false in H by lia. rewrite EX in H.
+  rewrite nwdl_head_not_alpha_f in H by reflexivity. cbn [st_is_file andb] in H. exact (pop_drive s s3 Hd H).
+Qed.
+
+Lemma finish_drive ser ss (ews : bool) hh s2 hh2 : D ser -> (ss = ps + 2 \/ ps + 4 <= ss) ->
+  finish_segment dbg STFile ps ser ss ews hh = POk (s2, hh2) -> D s2 /\ hh2 = hh.
+Proof.
+  intros Hd Hss H. pose proof (D_len ser Hd) as Hl. unfold finish_segment in H.
+  destruct (slice_o ser ss (if ews then nlen ser - 1 else nlen ser)) as [seg|] eqn:Es; [|discriminate H].
+  cbn [of_option pbind] in H.
+  destruct Hss as [Hss|Hss].
+  - (* the segment text starts with the ':' of the drive letter *)
+    assert (exists seg', seg = 58 :: seg') as [seg' ->].
+    { apply (slice_head ser ss (if ews then nlen ser - 1 else nlen ser) 58 (47 :: nskipn (ps + 4) ser) seg); [| |exact Es].
+      - destruct Hd as [X ->]. rewrite Hss. unfold P0. rewrite <- !app_assoc.
+        change (pre ++ [47; a; 58; 47] ++ X) with (pre ++ [47; a] ++ 58 :: 47 :: X). rewrite !app_assoc.
+        replace (ps + 2) with (nlen (pre ++ [47; a])) by (rewrite nlen_app; reflexivity).
+        rewrite nskipn_app_len. f_equal. f_equal.
+        replace (ps + 4) with (nlen ((pre ++ [47; a]) ++ [58; 47])) by (rewrite !nlen_app; unfold nlen; cbn [length]; lia).
+        change (58 :: 47 :: X) with ([58; 47] ++ X). rewrite app_assoc. rewrite nskipn_app_len. reflexivity.
+      - destruct ews; lia. }
+    rewrite ddot_58, sdot_58 in H. replace (ss =? ps + 1) with false in H by lia.
+    rewrite andb_false_r in H. cbn [andb] in H. inversion H; subst. split; [exact Hd | reflexivity].
+  - destruct (is_double_dot seg).
+    + destruct (if dbg then match (if 1 <=? ss then nnth ser (ss - 1) else None) with
+                            | Some b => passert (b =? 47) | None => PPanic end else POk tt) as [[]| |]; try discriminate H.
+      cbn [pbind] in H.
+      set (s1 := truncate ser ss) in *.
+      assert (D s1) as Hd1 by (apply D_trunc; assumption).
+      set (s2' := if ends_with_byte 47 s1 && last_slash_can_be_removed s1 ps then nfirstn (nlen s1 - 1) s1 else s1) in *.
+      assert (D s2') as Hd2.
+      { unfold s2'. destruct (nlen s1 =? ps + 4) eqn:El.
+        - assert (s1 = P0) as ->.
+          { destruct Hd1 as [X EX]. rewrite EX in El. rewrite nlen_app, P0_len in El.
+            destruct X as [|x X']; [rewrite EX; apply app_nil_r|]. rewrite nlen_cons in El. lia. }
+          rewrite lscbr_P0, andb_false_r. exact Hd1.
+        - destruct (ends_with_byte 47 s1 && last_slash_can_be_removed s1 ps); [|exact Hd1].
+          apply D_trunc; [exact Hd1|]. pose proof (D_len s1 Hd1). lia. }
+      destruct (shorten_path STFile ps s2') as [s3| |] eqn:Esh; try discriminate H. cbn [pbind] in H.
+      pose proof (shorten_drive s2' s3 Hd2 Esh) as Hd3.
+      inversion H; subst. split; [|reflexivity].
+      destruct (ews && negb (ends_with_byte 47 s3)); [apply D_app|]; exact Hd3.
+    + destruct (is_single_dot seg).
+      * inversion H; subst. split; [|reflexivity].
+        assert (D (truncate ser ss)) as Hd1 by (apply D_trunc; assumption).
+        destruct (ends_with_byte 47 (truncate ser ss)); [|apply D_app]; exact Hd1.
+      * replace (ss =? ps + 1) with false in H by lia. rewrite andb_false_r in H. cbn [andb] in H.
+        inversion H; subst. split; [exact Hd | reflexivity].
+Qed.
+
+Lemma fixup_drive s : D s -> D (file_path_fixup STFile ps s).
+Proof.
+  intros [X ->]. unfold file_path_fixup. cbn [st_is_file]. unfold P0. rewrite <- app_assoc.
+  rewrite nskipn_app_len, nfirstn_app_len. cbn [app drop_while].
+  replace (is_slash 47) with true by reflexivity. unfold is_slash at 1. rewrite a_not_slash.
+  exists X. unfold P0. rewrite <- app_assoc. reflexivity.
+Qed.
+
+Lemma arm4_drive ser : D ser -> is_normalized_wdl (nskipn (ps + 1) ser) = false.
+Proof.
+  intros [X ->]. unfold P0. rewrite <- app_assoc. change (pre ++ [47; a; 58; 47] ++ X) with (pre ++ [47] ++ a :: 58 :: 47 :: X).
+  rewrite app_assoc. replace (ps + 1) with (nlen (pre ++ [47])) by (rewrite nlen_app; reflexivity).
+  rewrite nskipn_app_len. apply nwdl_long_f.
+Qed.
+
+Theorem loop_drive l : forall ser ss pend hh s' hh' rem, usv_list l -> usv_list pend ->
+  D ser -> (ss = ps + 2 \/ ps + 4 <= ss) ->
+  loop l ser ss pend hh = POk (s', hh', rem) -> D s' /\ hh' = hh /\ rem = cbb_rest l.
+Proof.
+  assert (forall ser pend, usv_list pend -> D ser -> D (push_pending CUrlParser STFile ser pend)) as Hpush.
+  { intros ser pend Hp Hd. rewrite push_pending_eq_sp by exact Hp. apply D_app. exact Hd. }
+  assert (forall l0 ser ss pend hh s' hh' rem, usv_list pend -> D ser -> (ss = ps + 2 \/ ps + 4 <= ss) ->
+            (' (s2, hh2) <~ finish_segment dbg STFile ps (push_pending CUrlParser STFile ser pend) ss false hh ;;
+             @POk (list N * bool * list N) (file_path_fixup STFile ps s2, hh2, l0)) = POk (s', hh', rem) ->
+            D s' /\ hh' = hh /\ rem = l0) as Hend.
+  { intros l0 ser ss pend hh s' hh' rem Hp Hd Hss H.
+    destruct (finish_segment dbg STFile ps (push_pending CUrlParser STFile ser pend) ss false hh) as [[s2 hh2]| |] eqn:Ef; try discriminate H.
+    cbn [pbind] in H. inversion H; subst.
+    destruct (finish_drive _ _ _ _ _ _ (Hpush ser pend Hp Hd) Hss Ef) as [Hd2 ->].
+    split; [apply fixup_drive; exact Hd2 | split; reflexivity]. }
+  induction l as [|c r IH]; intros ser ss pend hh s' hh' rem Hu Hp Hd Hss H.
+  - cbn [parse_path_loop cbb_rest] in *. exact (Hend [] ser ss pend hh s' hh' rem Hp Hd Hss H).
+  - apply usv_cons in Hu. destruct Hu as [Huc Hur]. cbn [cbb_rest]. cbn [parse_path_loop] in H.
+    destruct (is_tnl c) eqn:Et.
+    + apply (IH _ _ _ _ _ _ _ Hur (Forall_nil _) (Hpush ser pend Hp Hd) Hss H).
+    + cbn [ctx_eqb negb st_is_special st_is_file andb] in H.
+      destruct ((c =? 47) || (c =? 92) && true) eqn:Esl.
+      * assert (is_qh c = false) as Eq by (unfold is_qh; lia). rewrite Eq.
+        destruct (finish_segment dbg STFile ps (push_pending CUrlParser STFile ser pend ++ [47]) ss true hh) as [[s2 hh2]| |] eqn:Ef; try discriminate H.
+        cbn [pbind] in H.
+        destruct (finish_drive _ _ _ _ _ _ (D_app _ [47] (Hpush ser pend Hp Hd)) Hss Ef) as [Hd2 ->].
+        apply (IH _ _ _ _ _ _ _ Hur (Forall_nil _) Hd2 (or_intror (D_len s2 Hd2)) H).
+      * destruct (is_qh c) eqn:Eq.
+        -- unfold is_qh in Eq. rewrite Eq in H. cbn [andb] in H.
+           exact (Hend (c :: r) ser ss pend hh s' hh' rem Hp Hd Hss H).
+        -- unfold is_qh in Eq. rewrite Eq in H. cbn [andb] in H.
+           rewrite (arm4_drive ser Hd) in H. rewrite andb_false_r in H.
+           apply (IH ser ss (c :: pend) hh s' hh' rem Hur); try assumption. apply usv_cons. split; assumption.
+Qed.
+
+End Drive.
